@@ -89,16 +89,17 @@ def roughly_typed(e):
 _CUR = {"in_raise": False}
 
 
-def mutants(prog):
+def mutants(prog, rename_bound=True):
     """yield (description, mutated program, tags)"""
-    for desc, mprog, tags in _mutants_raw(prog):
+    for desc, mprog, tags in _mutants_raw(prog, rename_bound):
         yield desc, mprog, tags + (["in:raise"] if _CUR["in_raise"] else []) + (["in:parent-args"] if _CUR.get("in_parent") else [])
 
 
-def _mutants_raw(prog):
+def _mutants_raw(prog, rename_bound=True):
     """yield (description, mutated program, tags, site path or None)"""
     base = PRELUDE + prog
     off = len(PRELUDE)
+    bound = bound_names(prog) if rename_bound else []
     for path, e, role in sites(prog):
         p = (path[0] + off,) + path[1:]
         # is the site inside the operand of a `raise` statement?
@@ -138,6 +139,17 @@ def _mutants_raw(prog):
             yield ("rename-undefined@%s" % (path,), replace(base, p, var(e[1] + "_undefined")), ["mut:rename-undefined", "site:var"])
             yield ("rename-other-str@%s" % (path,), replace(base, p, var("other_s")), ["mut:rename-other", "with:Str", "site:var"])
             yield ("rename-other-int@%s" % (path,), replace(base, p, var("other_i")), ["mut:rename-other", "with:Int", "site:var"])
+            # ... and to every other name the program binds ANYWHERE (a local of another block or function, a loop variable,
+            # a match capture, a handle binder, a parameter): out of scope at this use unless the checker's scoping leaks
+            for other in bound:
+                if other != e[1]:
+                    extra = []
+                    anc = prog
+                    for i in path:
+                        if isinstance(anc, tuple) and anc and anc[0] == 'handle' and i == 2 and anc[1][0] == 'def' and anc[1][1] == other:
+                            extra = ["in:own-handle-arm"]   # inside an arm of the handle that guards the definition of `other`
+                        anc = anc[i]
+                    yield ("rename-bound:%s@%s" % (other, path), replace(base, p, var(other)), ["mut:rename-bound", "to:" + other, "site:var"] + extra)
         if e[0] == 'call':
             yield ("rename-function@%s" % (path,), replace(base, p, ('call', e[1] + "_undefined", e[2])), ["mut:rename-undefined", "site:call"])
     _CUR["in_raise"] = False
@@ -148,6 +160,48 @@ def _mutants_raw(prog):
         for name in sorted(set(used))[:2]:
             p = (path[0] + off,) + path[1:]
             yield ("shadow:%s@%s" % (name, path), replace(base, p, [('def', name, 'Str', lit_str("sh"), False)] + blk), ["mut:shadow-in-block"])
+
+
+def bound_names(node, acc=None):
+    """every variable-like name a program binds anywhere: definitions, tuple definitions, loop variables, parameters,
+    handle binders, single-identifier match patterns (captures)"""
+    top = acc is None
+    if top:
+        acc = []
+    if isinstance(node, list):
+        for x in node:
+            bound_names(x, acc)
+    elif isinstance(node, tuple) and node and isinstance(node[0], str):
+        k = node[0]
+        if k in ('def', 'defif', 'defmatch') and isinstance(node[1], str):
+            acc.append(node[1])
+        elif k == 'deftup':
+            acc.extend(n for n in node[1] if isinstance(n, str))
+        elif k == 'for' and isinstance(node[1], str):
+            acc.append(node[1])
+        elif k == 'fun':
+            for prm in node[2]:
+                if isinstance(prm, (tuple, list)) and prm and isinstance(prm[0], str):
+                    acc.append(prm[0])
+        elif k == 'handle':
+            for arm in node[2]:
+                if isinstance(arm[0], str):
+                    acc.append(arm[0])
+        for x in node[1:]:
+            if isinstance(x, (list, tuple)):
+                bound_names(x, acc)
+    elif isinstance(node, tuple):
+        for x in node:
+            if isinstance(x, (list, tuple)):
+                bound_names(x, acc)
+    if top:
+        seen, out = set(), []
+        for n in acc:
+            if n.isidentifier() and n not in seen and n != 'self' and n != '_':
+                seen.add(n)
+                out.append(n)
+        return out[:14]
+    return acc
 
 
 def blocks(node, path=()):
@@ -165,7 +219,7 @@ def blocks(node, path=()):
 
 def base_programs(tier):
     quick = tier == "quick"
-    for f in "TFAOHKRE":
+    for f in "STFAOHKRE":
         gen = gen_prog.FAMILIES[f]("quick")
         for i, case in enumerate(gen):
             if f == "E":
@@ -181,6 +235,8 @@ def base_programs(tier):
                 continue
             if f == "H" and quick and i % 7:
                 continue
+            if f == "S" and quick and case["family"] == "S.method-locals":
+                continue
             yield case
 
 
@@ -188,7 +244,8 @@ def cases(tier):
     n = 0
     for case in base_programs(tier):
         prog = case["prog"]
-        for desc, mprog, tags in mutants(prog):
+        # quick tier: renaming a use to every name bound elsewhere only on the scoping bases (family S), which exist for it
+        for desc, mprog, tags in mutants(prog, rename_bound=(tier != "quick" or case["family"].startswith("S."))):
             try:
                 src = to_mamba(mprog)
             except Exception:
